@@ -1,6 +1,6 @@
 #!/bin/sh
 # Runs every stored seeded change against the quick check of the property it targets (apply to /repo, check, revert)
-# and records the outcome in seeded/<id>/detect.json. Usage: tools/seeded_sweep.sh [wall_s]
+# (now: in a scratch worktree; /repo is untouched) and records the outcome in seeded/<id>/detect.json. Usage: tools/seeded_sweep.sh [wall_s]
 cd /verif || exit 2
 WALL=${1:-60}
 for d in seeded/*/; do
